@@ -247,7 +247,7 @@ var kindBits = map[string]uint32{"bool": 1, "i8": 8, "u8": 8, "i16": 16, "u16": 
 	"i64": 64, "u64": 64, "f64": 64}
 var allKinds = []string{"void", "bool", "i8", "i16", "i32", "i64", "u8", "u16", "u32", "u64", "f32", "f64", "enum", "text",
 	"data", "list", "struct", "iface", "any"}
-var listElts = []string{"u64", "text", "struct", "enum", "list", "bool", "data", "any", "iface", "i8", "f64"}
+var listElts = []string{"u64", "text", "struct", "enum", "list", "bool", "data", "any", "iface", "i8", "f64", "void"}
 
 type schemaGen struct {
 	r       *rng
